@@ -86,6 +86,11 @@ package datastore
 // for every intent of the transaction (rollback transactions included) the stored content is recorded: as the old
 // version in the transaction, and for the removal of entries stored under a former priority
 //@   loop 0 invariant every_intent_is_snapshotted [C05 C02]: exstr(k, $visited[k]) ==> called(AddIntentContent) && called(LoadIntendedStoreOwnerData)
+// every intent of the transaction is registered as an actual owner of the tree: what the store holds of it is its former version
+//@   loop 0 invariant callres(NewTreeContext, 0) != nil
+//@   loop 0 invariant every_intent_of_the_transaction_is_an_actual_owner [C04 C08]: exstr(k, $visited[k]) ==> called(SetActualOwner) &&
+//@            callarg(SetActualOwner, 0, 0) == callres(NewTreeContext, 0) && callarg(SetActualOwner, 0, 1) == callres(GetName, 0) &&
+//@            exstr(k, $visited[k] && $map[k] == callarg(GetName, 0, 0))
 //@   loop 0 invariant former_content_is_kept_for_the_cleanup [C05 C02]: oldIntentContents != nil && allstr(k, $visited[k] ==> present(oldIntentContents, $map[k].name))
 // the paths of the former and of the new content of every intent are collected in one path set; the other intents'
 // entries for these paths are loaded once, after all intents of the transaction are in the tree, leaving out every intent
